@@ -197,6 +197,25 @@ def run(chk):
             chk.ob("C08.B.value", f"model_count::{mname}::{'positive' if polarity else 'negative'}-branching", prob is None, file=FILE, func="model_count", line=fm.node.lineno,
                    fact=prob or {"assumption_sets": len(asms)}, expect="number of startpoint valuations that extend to a consistent valuation satisfying the assumptions")
     chk.floor("model_count pipeline evaluations", n_mc, 200)
+    # the answer to one call does not depend on the calls made before it (a memo of encodings that a caller goes on to extend with
+    # its assumptions shows only when the FIRST encoding of a structure is made with assumptions): fresh environment, assumptions first
+    for mname in ("parity3", "two-independent-cones", "unloaded-startpoints"):
+        cm = cmodels[mname]
+        cons = consistent_valuations(cm)
+        sps = sorted(cm.startpoints())
+        out_ = sorted(cm.outputs())[0]
+        PH = pipeline_package(repo, False)
+        prob = None
+        seq = [{out_: True}, None, {out_: False}, {}, {sps[0]: True}, None]
+        for i_, asm in enumerate(seq):
+            want = len({tuple(v[s_] for s_ in sps) for v in cons if agrees(v, asm)})
+            # an equally built circuit that is another object: a memo keyed by structure is shared between them
+            r = PH.call(FILE, "model_count", cm.copy() if i_ % 2 else cm, dict(asm) if asm is not None else None)
+            if r[0] != "return" or r[1] != want or isinstance(r[1], bool):
+                prob = {"call": i_ + 1, "calls_before": [str(a_) for a_ in seq[:i_]], "assumptions": str(asm), "result": str(r)[:100], "expected": want}
+                break
+        chk.ob("C08.H.no-state-between-calls", f"model_count::{mname}::assumptions first, then none", prob is None, file=FILE, func="model_count", line=fm.node.lineno, fact=prob or {"calls": len(seq)},
+               expect="each count is that of its own assumptions, whatever was asked before")
 
     # ---- H: query, edit the same object through its API, query again - on the repository's OWN Circuit class -----------------
     # (a memo inside circuit.py's queries - transitive_fanin, startpoints ... - that an edit does not invalidate shows here)
